@@ -351,7 +351,19 @@ def gen_tree_program(rng, tier, bad=0.0, loss_p=0.25, max_leaves=4, meta=None):
         for i, o in zip(ins, outs):
             prog.append(["herald", cid, rng.choice([0, 0, 1, 1, 2]), i, None if (i == o and rng.random() < 0.5) else o])
         if rng.random() < bad:
-            prog.append(["herald", cid, 1, ins[0], None])     # duplicate
+            # rejected herald calls: duplicate on both sides, only the input taken, only the OUTPUT taken
+            # (free input mode: a check-then-record-per-side implementation would leave a half-written herald),
+            # out-of-range output with a valid input
+            free = [m for m in range(n) if m not in ins and m not in outs]
+            v = rng.randrange(4)
+            if v == 1 and free:
+                prog.append(["herald", cid, 1, ins[0], free[0]])
+            elif v == 2 and free:
+                prog.append(["herald", cid, rng.choice([0, 1]), free[0], outs[-1]])
+            elif v == 3 and free:
+                prog.append(["herald", cid, 1, free[0], n + rng.randrange(2)])
+            else:
+                prog.append(["herald", cid, 1, ins[0], None])
         opn[cid] -= k
 
     leaves = []
